@@ -21,7 +21,11 @@ oracle : this file, written from the English statement: weights positive and fin
          of converted rule weights along the derivation found by the harness' own tree-recursive
          derivation, encode t = indicator of the primitive rules of that derivation; the slice
          table is a bijection between (abstraction, primitive) pairs and tensor positions.
-Tolerances (float32 tensors, float64 model): per tag 1e-4 abs/rel, sums 1e-5, encode exact.
+Tolerances (float32 tensors, float64 model): per tag 1e-4 abs/rel (variable/constant tags, float64
+on both sides: 1e-9), sums 1e-5, encode exact; for tensors with max|x| > 80 (3% of the cases use
+scale 400 / 1000) both tolerances are multiplied by max|x|/80 (float32 ulp), and when the spread
+max(x)-min(x) or max|x| exceeds 700 only the property oracle is evaluated and its failures carry
+the listed open finding C19-F3 (float64 exp underflow).
 """
 import json
 import math
@@ -80,6 +84,8 @@ def gen(rng, i, tier):
     malformed = None
     if rng.random() < 0.04:
         malformed = rng.choice(["short", "long", "empty"])
+    elif rng.random() < 0.03 and tt != "zeros":
+        tensor["scale"] = rng.choice([400, 1000])     # float64 exp underflows: known finding C19-F3
     return {"kind": kind, "abs": rng.choice(["bigram", "bigram", "presence"]), "v": rng.choice(VS), "dsl": dsl,
             "grammars": grammars, "which": rng.randrange(ng), "tvo": rng.random() < 0.6, "tensor": tensor,
             "nprogs": rng.choice([1, 2, 3, 4]), "progseed": rng.randrange(1 << 30), "malformed": malformed}
@@ -123,6 +129,9 @@ def corpus():
         # non-terminals with only variables (two of them: ordering trick in the all-variables branch)
         {"kind": "det", "abs": "bigram", "v": 0.9, "dsl": "opaque", "grammars": [dict(ms, mode="plain", treq="A -> A -> int")], "which": 0,
          "tvo": True, "tensor": dict(z, type="onehot", scale=80), "nprogs": 3, "progseed": 7, "malformed": None},
+        # C19-F2: a variable used as a function with two alternatives
+        {"kind": "u", "abs": "presence", "v": 0.2, "dsl": "ho", "grammars": [dict(ms, mode="dfta", treq="(int -> int) -> int", constraint="(+ ^+ _)")], "which": 0,
+         "tvo": False, "tensor": z, "nprogs": 2, "progseed": 11, "malformed": None},
         # shared slices across type requests + constants
         {"kind": "det", "abs": "presence", "v": 0.05, "dsl": "mixed", "grammars": [dict(ms, mode="plain", treq="bool -> int", consts=True),
                                                                                  dict(ms, mode="plain", treq="int -> int")], "which": 1,
@@ -137,6 +146,13 @@ def f2b(x):
 
 def b2f(n):
     return struct.unpack("<d", struct.pack("<Q", int(n)))[0]
+
+
+def sexp(t):
+    try:
+        return math.exp(t)
+    except OverflowError:
+        return math.inf
 
 
 def close(a, b, tol=TAG_TOL):
@@ -228,7 +244,9 @@ def make_tensor(spec, n, malformed):
     if t == "zeros":
         xs = [0.0] * n
     elif t == "normal":
-        xs = [max(-80.0, min(80.0, r.gauss(0, 1) * spec["scale"])) for _ in range(n)]
+        xs = [r.gauss(0, 1) * spec["scale"] for _ in range(n)]
+        if spec["scale"] <= 80:
+            xs = [max(-80.0, min(80.0, t)) for t in xs]
     elif t == "uniform":
         xs = [r.uniform(-1, 1) * spec["scale"] for _ in range(n)]
     elif t == "onehot":
@@ -389,7 +407,15 @@ def check(case, M):
     tvo = bool(case["tvo"])
     failures = []
 
+    extreme = [False]
+
     def fail(k, what, detail, finding=None):
+        if extreme[0]:
+            # outside the float range of the model (its plain log-sum-exp overflows): only the
+            # property oracle is evaluated, and its failures belong to the listed finding C19-F3
+            if k != "oracle":
+                return
+            finding = "C19-F3"
         f = {"kind": k, "what": what, "detail": str(detail)[:600]}
         if finding:
             f["finding"] = finding
@@ -435,6 +461,16 @@ def check(case, M):
     xs = make_tensor(case["tensor"], n, case.get("malformed"))
     x32 = torch.tensor(xs, dtype=torch.float32)
     xs = [float(t) for t in x32.tolist()]
+    # decidable classifier of the known finding C19-F3: the spread of the tensor exceeds what
+    # float64 exp can represent (exp(-745) == 0); |x| > 700 is included because the model's plain
+    # log-sum-exp overflows there (the implementation has no failure when the spread is small)
+    # float32 rounding of the log-softmax values grows linearly with the magnitude of the entries:
+    # the stated tolerances hold for |x| <= 80 and are scaled by max|x|/80 beyond
+    mag = max([abs(t) for t in xs] + [0.0])
+    fscale = max(1.0, mag / 80.0)
+    TAG_TOL_ = TAG_TOL * fscale
+    SUM_TOL_ = SUM_TOL * fscale
+    extreme[0] = bool(xs) and (max(xs) - min(xs) > 700.0 or max(abs(t) for t in xs) > 700.0)
 
     # ---- programs
     prng = random.Random(case["progseed"])
@@ -566,8 +602,10 @@ def check(case, M):
             fail("corr", "tagged rules differ from the model", f"only impl={sorted(set(it) - set(mt))[:3]} only model={sorted(set(mt) - set(it))[:3]}")
         else:
             for k in it:
-                if not close(it[k], mt[k]):
-                    fail("corr", "tag differs from the model", f"rule {T.nts[k[0] - 1]} -> {k[1]} {k[2]}: impl={it[k]} model={mt[k]}")
+                # variable/constant tags are float64 on both sides (numpy / Lean Float): tight tolerance,
+                # primitive tags come from a float32 log_softmax
+                if not close(it[k], mt[k], 1e-9 if k[1][0] in ("v", "c") else TAG_TOL_):
+                    fail("corr", "tag differs from the model", f"rule {T.nts[k[0] - 1]} -> {k[1]} {k[2]}: impl={it[k]!r} model={mt[k]!r}")
                     break
         # expected structure: every alternative of every rule is tagged
         want_keys = set()
@@ -605,21 +643,21 @@ def check(case, M):
             vals = [it[k] for k in ks]
             if any(not math.isfinite(t) for t in vals):
                 nonfinite = True
-                fail("oracle", "non-finite tag for a tensor with |x| <= 80", f"nt={T.nts[sid - 1]} tags={vals[:6]}")
+                fail("oracle", "non-finite tag", f"nt={T.nts[sid - 1]} tags={vals[:6]}")
                 continue
-            ws = [math.exp(t) for t in vals]
+            ws = [sexp(t) for t in vals]
             if any(not (w > 0) for w in ws):
                 fail("oracle", "a rule weight is not positive", f"nt={T.nts[sid - 1]} weights={ws[:6]}")
             s = math.fsum(ws)
             tagsum[sid] = s
-            if abs(s - want_sum) > SUM_TOL:
+            if abs(s - want_sum) > SUM_TOL_:
                 fail("oracle", "rule weights of a non-terminal do not sum to 1", f"nt={T.nts[sid - 1]} sum={s} expected={want_sum} (m={m} c={c} tvo={tvo})")
             if m + c > 0:
-                sv = math.fsum(math.exp(it[k]) for k in ks if k[1][0] in ("v", "c"))
-                if abs(sv - want_var) > SUM_TOL:
+                sv = math.fsum(sexp(it[k]) for k in ks if k[1][0] in ("v", "c"))
+                if abs(sv - want_var) > SUM_TOL_:
                     fail("oracle", "variables and constants do not receive variable_probability", f"nt={T.nts[sid - 1]} mass={sv} expected={want_var} other rules exist={bool(prim)}")
             # model vs spec (theorems C19_norm / C19_varmass on Float, up to rounding)
-            ms_ = math.fsum(math.exp(mt[k]) for k in mt if k[0] == sid)
+            ms_ = ssum if extreme[0] else math.fsum(sexp(mt[k]) for k in mt if k[0] == sid)
             if abs(ms_ - ssum) > 1e-9:
                 raise RuntimeError(f"model contradicts C19_norm beyond rounding: {ms_} vs {ssum}")
             # closed form: re-normalised softmax of the entries that encode marks
@@ -630,11 +668,11 @@ def check(case, M):
                 else:
                     mx = max(xs[p] for p in ps)
                     nalt = {dp_key(w): (len(alts) if isu else 1) for w, alts in row}
-                    den = math.fsum(nalt[q] * math.exp(xs[p] - mx) for p, q in zip(ps, prim))
+                    den = math.fsum(nalt[q] * sexp(xs[p] - mx) for p, q in zip(ps, prim))
                     for p, q in zip(ps, prim):
                         want = math.log(1 - v if m + c > 0 else 1.0) + (xs[p] - mx) - math.log(den)
                         for k in ks:
-                            if k[1] == q and not close(it[k], want):
+                            if k[1] == q and not close(it[k], want, TAG_TOL_):
                                 fail("oracle", "weight of a primitive rule is not the re-normalised softmax of the tensor entries that encode marks for its non-terminal",
                                      f"nt={T.nts[sid - 1]} rule={q} tag={it[k]} expected={want}")
                                 break
@@ -642,21 +680,21 @@ def check(case, M):
         if isu:
             ist = {T.nt_id[S]: float(t.item()) for S, t in lg.start_tags.items()}
             mst = {int(e[0]): b2f(e[1]) for e in A["starttags"][0]}
-            if set(ist) != set(mst) or any(not close(ist[k], mst[k]) for k in ist):
+            if set(ist) != set(mst) or any(not close(ist[k], mst[k], TAG_TOL_) for k in ist):
                 fail("corr", "start tags differ from the model", f"impl={ist} model={mst}")
             if set(ist) != set(G["starts"]):
                 fail("oracle", "start tags are not defined exactly on the start symbols", f"{sorted(ist)} vs {sorted(G['starts'])}")
             elif any(not math.isfinite(t) for t in ist.values()):
-                fail("oracle", "non-finite start tag for a tensor with |x| <= 80", str(ist))
+                fail("oracle", "non-finite start tag", str(ist))
             else:
-                if abs(math.fsum(math.exp(t) for t in ist.values()) - 1.0) > SUM_TOL:
+                if abs(math.fsum(sexp(t) for t in ist.values()) - 1.0) > SUM_TOL_:
                     fail("oracle", "start weights do not sum to 1", str(ist))
                 zs = {s: xs[n - len(impl_startsabs) + impl_startsabs.index(habs(s))] for s in ist if habs(s) in impl_startsabs}
                 if len(zs) == len(ist):
                     mx = max(zs.values())
-                    den = math.fsum(math.exp(z - mx) for z in zs.values())
+                    den = math.fsum(sexp(z - mx) for z in zs.values())
                     for s in ist:
-                        if not close(ist[s], zs[s] - mx - math.log(den)):
+                        if not close(ist[s], zs[s] - mx - math.log(den), TAG_TOL_):
                             fail("oracle", "start weight is not the softmax of the start entries of the tensor", f"start={T.nts[s - 1]} tag={ist[s]}")
                             break
 
@@ -671,8 +709,8 @@ def check(case, M):
             pg = pres[1]
             ip = flat_impl(pg.tags)
             mp = flat_model(A["prob"][0])
-            if set(ip) != set(mp) or any(not close(ip[k], mp[k], 1e-4) for k in ip):
-                bad = next((k for k in ip if k not in mp or not close(ip[k], mp[k], 1e-4)), None)
+            if set(ip) != set(mp) or any(not close(ip[k], mp[k], TAG_TOL_) for k in ip):
+                bad = next((k for k in ip if k not in mp or not close(ip[k], mp[k], TAG_TOL_)), None)
                 fail("corr", "converted probability differs from the model", f"{bad}: impl={ip.get(bad)} model={mp.get(bad)}")
             for sid, row in G["rules"]:
                 ws = [ip[k] for k in ip if k[0] == sid]
@@ -682,18 +720,18 @@ def check(case, M):
                     fail("oracle", "a converted weight is not positive and finite", f"nt={T.nts[sid - 1]} {ws[:6]}")
                     continue
                 want = 1.0 if isu else specs[sid][3]
-                if abs(math.fsum(ws) - want) > SUM_TOL:
+                if abs(math.fsum(ws) - want) > SUM_TOL_:
                     fail("oracle", "converted weights of a non-terminal do not sum to 1", f"nt={T.nts[sid - 1]} sum={math.fsum(ws)}")
                 for k in ip:
-                    if k[0] == sid and k in it and not close(ip[k], math.exp(it[k]) / (tagsum.get(sid, 1.0) if isu else 1.0), 1e-6):
+                    if k[0] == sid and k in it and not close(ip[k], sexp(it[k]) / (tagsum.get(sid, 1.0) if isu else 1.0), 1e-6 * fscale):
                         fail("oracle", "converted weight is not exp(tag)", f"{k}: {ip[k]} vs exp({it[k]})")
                         break
             if isu:
                 isp = {T.nt_id[S]: float(t) for S, t in pg.start_tags.items()}
                 msp = {int(e[0]): b2f(e[1]) for e in A["startprob"][0]}
-                if set(isp) != set(msp) or any(not close(isp[k], msp[k], 1e-4) for k in isp):
+                if set(isp) != set(msp) or any(not close(isp[k], msp[k], TAG_TOL_) for k in isp):
                     fail("corr", "converted start probability differs from the model", f"impl={isp} model={msp}")
-                if abs(math.fsum(isp.values()) - 1.0) > SUM_TOL or any(not (w > 0) for w in isp.values()):
+                if abs(math.fsum(isp.values()) - 1.0) > SUM_TOL_ or any(not (w > 0) for w in isp.values()):
                     fail("oracle", "converted start weights are not positive summing to 1", str(isp))
 
         # ---- 4. programs: log_probability and encode
@@ -723,7 +761,7 @@ def check(case, M):
                 msteps = [(int(s[0]), dp_key(s[1])) for s in m_steps]
                 if msteps != [(s, p) for s, p, _ in der]:
                     raise RuntimeError(f"Lean derivation and harness derivation disagree on {prog_str(t)}: {msteps} vs {der}")
-                if m_lp == "err" or m_w == "err" or not close(math.exp(b2f(m_lp[1])), b2f(m_w[1]), 1e-6):
+                if not extreme[0] and (m_lp == "err" or m_w == "err" or not close(sexp(b2f(m_lp[1])), b2f(m_w[1]), 1e-6)):
                     raise RuntimeError(f"model contradicts C19_consistent on {prog_str(t)}: {m_lp} {m_w}")
             # correspondence
             if ienc[0] == "err":
@@ -740,8 +778,8 @@ def check(case, M):
                     fail("corr", "log_probability raises where the model returns a value", f"{prog_str(t)}: {ilp[1]}")
             elif lp_fixed is None:
                 fail("corr", "log_probability returns a value where the model fails", prog_str(t))
-            elif not close(ilp[1], lp_fixed):
-                pre = isu and lp_old is not None and close(ilp[1], lp_old)
+            elif not close(ilp[1], lp_fixed, TAG_TOL_ * max(1, len(ders[0][1]) if ders else 1)):
+                pre = isu and lp_old is not None and close(ilp[1], lp_old, TAG_TOL_)
                 fail("corr", "log_probability differs from the model" + (" (equals the model of the code before fix C19-F1: start tag omitted)" if pre else ""),
                      f"{prog_str(t)}: impl={ilp[1]} model={lp_fixed}")
             # oracle (programs of the grammar only)
@@ -769,10 +807,10 @@ def check(case, M):
             except Exception as e:  # noqa
                 fail("oracle", "the converted grammar has no weight for a rule of the derivation", f"{prog_str(t)}: {type(e).__name__}")
                 continue
-            tol = 1e-4 + len(der) * 3e-6
-            if not close(math.exp(ilp[1]), wprob, tol) and not (wprob < 1e-300 and math.exp(ilp[1]) < 1e-300):
+            tol = (1e-4 + len(der) * 3e-6) * fscale
+            if not close(sexp(ilp[1]), wprob, tol) and not (wprob < 1e-300 and sexp(ilp[1]) < 1e-300):
                 fail("oracle", "exp(log_probability) differs from the probability the converted grammar gives to the derivation",
-                     f"{prog_str(t)}: exp(log_probability)={math.exp(ilp[1])} start weight x product of rule weights={wprob} (starts={len(G['starts'])})")
+                     f"{prog_str(t)}: exp(log_probability)={sexp(ilp[1])} start weight x product of rule weights={wprob} (starts={len(G['starts'])})")
 
     # ---- tags / key / sample
     nst = len(G["starts"])
@@ -796,6 +834,8 @@ def check(case, M):
         tags.append("u.program-with-several-derivations(skipped by the oracle)")
     if nonfinite:
         tags.append("non-finite")
+    if extreme[0]:
+        tags.append("tensor.spread>700(known finding C19-F3 region, oracle only)")
     key = json.dumps([kind, case["abs"], case["v"], case["dsl"], case["grammars"], which, tvo, [round(t, 4) for t in xs[:40]], [prog_str(t) for t in progs]], sort_keys=True)
     return {"key": key, "nontrivial": lg is not None and len(G["rules"]) >= 2 and len(progs) >= 1 and not case.get("malformed"),
             "tags": tags, "failures": failures,
